@@ -28,6 +28,10 @@ import (
 //            | O                  a synchronous Pop; `blocked` when there is no token (ended through termc)
 //            | W                  a popper left waiting on the channel when there is no token; the next Push
 //                                 that sends hands the token over and the popper runs
+//            | K<alerts>          a Pop (token present) parked inside its body right after it cut its batch (at the
+//                                 q.popped counter, replaced by a gate through the VerifPopped hook) while a Push
+//                                 of <alerts> is started; the harness waits until the Push has finished or is
+//                                 parked on the mutex, then lets the Pop go on
 //            | R<elem>{/<elem>}   a round: the harness holds the queue's mutex, the elements queue up on it
 //                                 in this order (sync.Mutex wakes waiters first-in first-out and nobody else
 //                                 contends) and run in this order once it is released;
@@ -147,6 +151,36 @@ const (
 	c46Push = "pkg/alert.(*Queue).Push"
 )
 
+// c46Gate is the queue's "popped" counter with a parking place: when armed, the next Add parks its
+// caller until released.  It adds nothing to what Pop does.
+type c46Gate struct {
+	prometheus.Counter
+	mu      sync.Mutex
+	armed   bool
+	entered chan struct{}
+	release chan struct{}
+}
+
+func (g *c46Gate) Add(v float64) {
+	g.Counter.Add(v)
+	g.mu.Lock()
+	armed := g.armed
+	g.armed = false
+	ent, rel := g.entered, g.release
+	g.mu.Unlock()
+	if armed {
+		close(ent)
+		<-rel
+	}
+}
+
+func (g *c46Gate) arm() (entered, release chan struct{}) {
+	g.mu.Lock()
+	defer g.mu.Unlock()
+	g.armed, g.entered, g.release = true, make(chan struct{}), make(chan struct{})
+	return g.entered, g.release
+}
+
 type c46Run struct {
 	q        *alert.Queue
 	mu       *sync.Mutex
@@ -201,6 +235,8 @@ func c46ExecRun(c *hlib.Ctx, tok []string) string {
 	}
 	q, reg := c46NewQueue(cap, mb)
 	r := &c46Run{q: q, mu: alert.VerifMutex(q), morec: alert.VerifMorec(q), maxBatch: mb}
+	gate := &c46Gate{Counter: *alert.VerifPopped(q)}
+	*alert.VerifPopped(q) = gate
 	var kept []int // what relabelling keeps, in push order
 	// reference bounded FIFO (the specification, not the code's two truncation rules): append, then
 	// drop from the front while over capacity; a pop takes up to maxBatch from the front
@@ -288,6 +324,52 @@ func c46ExecRun(c *hlib.Ctx, tok []string) string {
 				<-done
 			} else {
 				waitDone, waitTerm = done, term
+			}
+		case strings.HasPrefix(it, "K"):
+			as, ok := c46ParseAlerts(it[1:])
+			if !ok {
+				return "bad-op"
+			}
+			if waitDone != nil || len(r.morec) == 0 {
+				return "bad-schedule"
+			}
+			entered, release := gate.arm()
+			popDone := make(chan struct{})
+			go func() { r.record(q.Pop(nil), "nil"); close(popDone) }()
+			select {
+			case <-entered:
+			case <-time.After(5 * time.Second):
+				return "hang"
+			}
+			refPop()
+			keepIDs(as)
+			refPush(as)
+			pushDone := make(chan struct{})
+			go func() { q.Push(c46MkAlerts(as)); close(pushDone) }()
+			// the Push either runs to its end (Pop does not hold the mutex here) or parks on the mutex
+			finished := false
+			if !c46Wait(func() bool {
+				select {
+				case <-pushDone:
+					finished = true
+					return true
+				default:
+					return c46Goroutines(c46Push, "sync.Mutex.Lock") == 1
+				}
+			}) {
+				close(release)
+				return "hang"
+			}
+			if finished && len(as) > 0 {
+				c.Count("pop-body-not-under-mutex")
+			}
+			close(release)
+			for _, d := range []chan struct{}{popDone, pushDone} {
+				select {
+				case <-d:
+				case <-time.After(5 * time.Second):
+					return "hang"
+				}
 			}
 		case strings.HasPrefix(it, "P"):
 			as, ok := c46ParseAlerts(it[1:])
@@ -634,6 +716,23 @@ func genC46(c *hlib.Ctx) {
 					}
 				}
 				c.Count("item:P")
+			case choice < 5 && tok:
+				// a Push arriving while a Pop is inside its body
+				a := c46GenAlerts(c, &next, cap)
+				items = append(items, "K"+a)
+				qlen -= min(qlen, mb)
+				tok = qlen > 0
+				kept := 0
+				for _, t := range hlib.Split(a, ",") {
+					if strings.HasSuffix(t, ".1") {
+						kept++
+					}
+				}
+				if kept > 0 {
+					qlen = min(cap, qlen+kept)
+					tok = true
+				}
+				c.Count("item:K")
 			case choice < 6:
 				items = append(items, "O")
 				if tok {
